@@ -1388,6 +1388,13 @@ func (p *Proof) updateProofAdd(adds, cachedDelHashes []Hash, remembers []uint32,
 	// will be in the proof hashes.
 	newNodes = mergeSortedHashAndPos(newNodes, proofWithPos)
 
+	// The loop below walks the additions and the indexes to remember in
+	// lockstep so the indexes have to be in ascending order.
+	sortedRemembers := make([]uint32, len(remembers))
+	copy(sortedRemembers, remembers)
+	slices.Sort(sortedRemembers)
+	remembers = sortedRemembers
+
 	// Grab all the new hashes to be cached.
 	remembersIdx := 0
 	addHashes := []Hash{}
